@@ -46,7 +46,57 @@ func (c20) Plan(tier string, seed int64) []mon.Workload {
 	if tier == "thorough" {
 		n = 3000
 	}
-	return []mon.Workload{{Name: "invocations", N: n, BatchTimeoutS: 1800}}
+	return []mon.Workload{{Name: "invocations", N: n, BatchTimeoutS: 1800},
+		{Name: "mode-matrix", N: int64(len(c20MatrixBodies) * 2 * 3 * 2 * 2), Exhaustive: true, BatchTimeoutS: 1800}}
+}
+
+// mode-matrix (exhaustive): every way of calling the runner x a handful of
+// script bodies that depend on the mode: {workspace, single file} x {text,
+// line protocol, no input} x {json, lineprotocol} x {LF, CRLF files} x bodies
+// (no use, use of a sibling, a three-level use chain, a use of a missing
+// script, a key named like an attribute, a long loop, a multi-line literal).
+var c20MatrixBodies = []struct{ Name, Text string }{
+	{"plain", "add_key(nk, 7)\nset_tag(tg1, \"tv\")\n"},
+	{"use", "add_key(m1, 1)\nuse(\"lib.p\")\nadd_key(m2, 2)\n"},
+	{"use-chain", "use(\"lib.v1.ppl\")\nadd_key(after_chain, 1)\n"},
+	{"use-missing", "add_key(m1, 1)\nuse(\"missing.p\")\n"},
+	{"attribute-names", "add_key(time, 312)\nadd_key(measurement, \"x\")\nset_measurement(\"changed\")\n"},
+	{"long-loop", "n = 0\nfor i = 0; i < 7000; i = i + 1 {\n  n = i\n}\nadd_key(after_loop, n)\n"},
+	{"multi-line", "add_key(ml, \"\"\"one\ntwo\"\"\")\ndefault_time(nosuchkey)\n"},
+	{"run-error", "add_key(before, 1)\nx = [1]\ny = x[5]\nadd_key(after, 1)\n"},
+}
+
+func c20Matrix(i int64) c20Case {
+	crlf := i%2 == 1
+	i /= 2
+	out := []string{"json", "lineprotocol"}[i%2]
+	i /= 2
+	in := int(i % 3)
+	i /= 3
+	mode := []string{"workspace", "single"}[i%2]
+	body := c20MatrixBodies[i/2]
+	cs := c20Case{Files: map[string]string{}, Script: "sel.p", OutType: out, Mode: mode, Features: []string{body.Name}}
+	cs.Files["sel.p"] = body.Text
+	cs.Files["lib.p"] = "add_key(from_lib, \"lib\")\n"
+	cs.Files["lib.v1.ppl"] = "add_key(from_l1, 1)\nuse(\"deep.p\")\n"
+	cs.Files["deep.p"] = "add_key(from_deep, 2)\nuse(\"deeper.ppl\")\n"
+	cs.Files["deeper.ppl"] = "set_tag(deepest, \"yes\")\n"
+	cs.Files["notes.txt"] = "nosuch_function()\n"
+	if crlf {
+		for n, t := range cs.Files {
+			cs.Files[n] = strings.ReplaceAll(t, "\n", "\r\n")
+		}
+		cs.Features = append(cs.Features, "crlf")
+	}
+	switch in {
+	case 0:
+		cs.InType, cs.Input = "text", "plain text message"
+	case 1:
+		cs.InType, cs.Input = "lineprotocol", "nginx,host=h1 f1=1.5,f2=\"str\",time=5i 1700000000123456789\nm2 f1=2i 1600000000000000000\n"
+	default:
+		cs.InType, cs.Input = "text", "<none>"
+	}
+	return cs
 }
 
 type c20Case struct {
@@ -295,6 +345,9 @@ const c20Marker = "Platypus Output Data:"
 
 func (k c20) Run(c *mon.Ctx, workload string, i int64) {
 	cs := k.build(c)
+	if workload == "mode-matrix" {
+		cs = c20Matrix(i)
+	}
 	bin := filepath.Join(root(), ".build", "platypus")
 	if _, err := os.Stat(bin); err != nil {
 		c.Inconclusive("the platypus binary has not been built: " + err.Error())
